@@ -454,3 +454,27 @@ package network
 //@   callpre dyn: pkt.ttl != 0 || pkt.dest == 0xff ==> pid_bytes(p.id) == pid_bytes(pkt.src)
 //@   callpre dyn: pkt.dest == 0 && pkt.ttl == 0 && pid_bytes(p.id) == pid_bytes(pkt.src) ==> (p.role & p2pRoleRoot) == p2pRoleRoot
 //@   callpre dyn: !(pkt.ttl != 0 || pkt.dest == 0xff) ==> ghost(put_ok)
+
+// replacing the members of a peer id set goes through Clear and Merge - Merge is what notifies the
+// listeners (the roles derived from the set are refreshed there), whatever the size of the new set
+//@ property C33
+//@ smt all (declare-ghost pset_clear_n Int)
+//@ smt all (declare-ghost pset_merge_n Int)
+//@ smt all (declare-ghost pset_merge_of Int)
+//@ func (s *Set) Clear()
+//@   trusted
+//@   modifies *
+//@   opt ghost:pset_clear_n ghost(pset_clear_n) + 1
+//@ func (s *PeerIDSet) Merge(args)
+//@   trusted
+//@   modifies *
+//@   opt ghost:pset_merge_n ghost(pset_merge_n) + 1
+//@   opt ghost:pset_merge_of s
+//@ func (s *PeerIDSet) ClearAndAdd(args)
+//@   arith int
+//@   nosafety
+//@   modifies *
+//@   opt no-callee-pre
+//@   opt inline-none
+//@   requires s != nil
+//@   ensures [cleared_then_merged] ghost(pset_clear_n) == old(ghost(pset_clear_n)) + 1 && ghost(pset_merge_n) == old(ghost(pset_merge_n)) + 1 && ghost(pset_merge_of) == s
